@@ -36,6 +36,10 @@ def run(ctx: Context) -> None:
     _infra.shoc_depth_names(ctx, 'R12.7')
     from .common import adopt_foundations as _adopt
     _adopt(ctx, 'R12.6', ['order'], floor=60)
+    ctx.rule('R12.8', "the caller's list of non-spatial variables is used as given: the empty default is substituted only where none was given", floor=1)
+    with ctx.section('R12.8'):
+        from . import infra as _infra128
+        _infra128.none_default_discipline(ctx, 'R12.8', ['emsarray.operations.depth.ocean_floor'])
     ctx.assume("NOT decided: NaN semantics of cumsum/argmax, all-NaN columns, static sea floor across the variables of a group - run-time numerical facts")
     ctx.assume("xarray: Dataset.isel with a DataArray indexer picks per-location layers; merge(compat='override') keeps the receiver's variables")
 
@@ -269,6 +273,7 @@ from ..variants import V  # noqa: E402
 _D = 'src/emsarray/operations/depth.py'
 _B = 'src/emsarray/conventions/_base.py'
 VARIANTS = [
+    V('C12', 'non-spatial-list-discarded', 'src/emsarray/operations/depth.py', "    if non_spatial_variables is None:\n        non_spatial_variables = []", "    if non_spatial_variables is not None:\n        non_spatial_variables = []", 'R12.8'),
     V('C12', 'scalar-coordinate-indexed', 'src/emsarray/utils.py', "        if len(coordinate.dims) == 0:\n            # A scalar coordinate, such as the time of one selected record,\n            # has no dimension\n            continue\n", "", 'R12.3'),
     V('C12', 'floor-index-left-lazy', _D, "    return cast(xarray.DataArray, max_depth_indexes.compute())", "    return cast(xarray.DataArray, max_depth_indexes)", 'R12.2'),
     V('C12', 'depth-bounds-kept', _D, "    dataset = dataset.drop_vars([\n        name for name in depth_bounds_names if name in dataset.variables])\n", "", 'R12.3'),
